@@ -6,18 +6,18 @@ import world as W
 from lib import hx
 from props import _family as F
 
-PROOF_MODULES = ["Jwt.Props.C12"]
-PROP_MODULES = ["Jwt.Props.C12"]
-PROP_FILES = ["Jwt/Props/C12.lean"]
-GENERATED_FACT_THEOREMS = 2
+PROOF_MODULES = ["Jwt.Props.C12", "Jwt.Props.C05Ec"]
+PROP_MODULES = ["Jwt.Props.C12", "Jwt.Props.C05Ec"]
+PROP_FILES = ["Jwt/Props/C12.lean", "Jwt/Props/C05Ec.lean", "Jwt/Lemmas/EcFrame.lean"]
+GENERATED_FACT_THEOREMS = 3
 CHECKER_CMD = "cd lean && lake build Jwt.Props.C12 && lake env lean <generated #print axioms file>"
 LEVEL_TEXT = ("Lean theorems over the generated jwt_ops_available table: set_crypto_ops(_t) succeeds iff the argument is exactly a compiled-in "
               "provider's name/id and otherwise leaves the current one untouched; JWT_CRYPTO handling; both ops tables parse JWKs with the same "
               "functions; verify and generate depend on the provider only through the primitives' answers (full equality of results when those "
-              "agree). That OpenSSL and GnuTLS compute the same functions is sampled: every (load, sign, verify) provider triple x key x "
+              "agree). The ECDSA r||s framing of both glues is modelled literally over generated constants and proved equivalent: both frame a pair of integers as the same 2w octets, both read back exactly that form and nothing else (C05_frame, C05_unframe_frame, C01_ecdsa_exact_form), tied to the glue by running it on chosen integers through interposed primitives. That the OpenSSL and GnuTLS primitives compute the same functions is sampled: every (load, sign, verify) provider triple x key x "
               "algorithm, byte-identity of HS*/RS*/EdDSA tokens, mutated tokens under both providers against one independent oracle.")
 ASSUMPTIONS = F.COMMON_ASSUME + ["PARTIAL: equivalence of the two crypto libraries is sampled, not proved",
-                                 "ES256K is outside the common support matrix (the GnuTLS glue refuses it); ECDSA encodings not framed per RFC 7518 are outside the property (DESIGN 10.2)"]
+                                 "ES256K is outside the common support matrix (the GnuTLS glue refuses it)"]
 TRUSTED_BASE = F.COMMON_TRUSTED
 replay = F.replay
 
@@ -53,6 +53,8 @@ def env_suite(ctx, model_ok):
 
 
 def run(ctx, model_ok, deep=False):
+    import ecframe
+    ecframe.run(ctx, model_ok, deep)
     F.run_suites(ctx, model_ok, deep, [
         ("providers", S.providers_suite, S.falsify_providers,
          "switch: 16 names (exact, case, prefix, suffix, empty, unknown, 300 bytes) and 10 ids from each current provider; "
